@@ -100,3 +100,27 @@ Theorem C03_quant_backoff_bits1_refuted :
   exists (backoffs : list Q) (b : Q), In b backoffs /\ ~ (b == 0)%Q /\
     encode_backoff_nonzero (train_backoff 1 backoffs) b = 2%nat /\ stored 1 2 = 0%nat.
 Proof. exact quant_backoff_bits1_refuted. Qed.
+
+(* For EVERY training set: MakeBins yields minus infinity for the leading empty bins and then non-decreasing finite centres
+   (the last bin is never empty), so the nearest-centre argument applies to what the trainer really produces: the value read
+   back from a quantised record is a finite centre nearest to the value written, for the probability table and -- among the
+   value bins, never one of the two reserved zero codes, and unchanged by the truncation to `bits` bits -- for the back-off table
+   whenever it has at least two bits (one bit is finding F6). *)
+From Kenlm Require Import C03.QuantSorted.
+Theorem C03_quant_centres_sorted : forall values bins, values <> [] -> (1 <= bins)%nat ->
+  exists a qs, make_bins values bins = repeat None a ++ map Some qs /\ sorted_q qs /\ qs <> [] /\ (a + length qs = bins)%nat.
+Proof. exact make_bins_shape. Qed.
+
+Theorem C03_quant_prob_nearest : forall bits probs x, probs <> [] ->
+  let t := train_prob bits probs in
+  exists c, QuantModel.decode t (encode_prob t x) = Some c /\
+            forall j c', nth j t None = Some c' -> (Qabs (x - c) <= Qabs (x - c'))%Q.
+Proof. exact quant_prob_nearest. Qed.
+
+Theorem C03_quant_backoff_nearest : forall bits backoffs x, backoffs <> [] -> (2 <= bits)%nat ->
+  let t := train_backoff bits backoffs in
+  let code := encode_backoff_nonzero t x in
+  (2 <= code < 2 ^ bits)%nat /\ stored bits code = code /\
+  exists c, QuantModel.decode t code = Some c /\
+            forall j c', (2 <= j)%nat -> nth j t None = Some c' -> (Qabs (x - c) <= Qabs (x - c'))%Q.
+Proof. exact quant_backoff_nearest. Qed.
